@@ -184,7 +184,7 @@ func (w *world) clause() *tx.Clause {
 		data, err := m.EncodeInput(w.account(), amount)
 		must(err)
 		return tx.NewClause(&builtin.Energy.Address).WithData(data)
-	case x < 36: // the whole transaction reverts: empty receipt, the tx index is skipped
+	case x < 39: // the whole transaction reverts: empty receipt, the tx index is skipped
 		return tx.NewClause(&w.logger).WithData(loggerCall(9, [4]thor.Bytes32{}, thor.Bytes32{}, 0, nil, false))
 	default: // logger call
 		var tp [4]thor.Bytes32
